@@ -361,6 +361,12 @@ func substPlaceholders(b []byte, mode int) []byte {
 				j++
 			}
 			txt = csvQuote(txt)
+			// json.Marshal fails on NaN/Inf and csv.go then has the empty text: when that cell is the
+			// whole record, csv.go's writeCSVRecord writes it as "" (a placeholder is never empty, so
+			// the model took the csv.Writer path for it)
+			if txt == "" && (len(out) == 0 || out[len(out)-1] == '\n') && j+1 < len(b) && b[j+1] == '\n' {
+				txt = `""`
+			}
 		}
 		out = append(out, txt...)
 		i = j + 1
